@@ -151,7 +151,7 @@ Qed.
 Variable hash_noquote : forall x, nosep DQ (H_md5 x) = true /\ nosep DQ (H_sha x) = true.
 
 Definition basic_ok (user pass : list N) : bool :=
-  nosep COLON user && bytes_okb user && bytes_okb pass && nosep COLON pass.
+  nosep COLON user && bytes_okb user && bytes_okb pass.
 
 Lemma url_matches_self u b : url_matches u (u_full u) b = true.
 Proof. unfold url_matches. rewrite list_eqb_refl. now rewrite orb_true_r. Qed.
@@ -173,14 +173,13 @@ Proof.
   assert (k = 0 \/ k = 1 \/ k = 2) as [E | [E | E]] by lia; rewrite E in *.
   - (* Basic *)
     specialize (Hbasic eq_refl). unfold basic_ok in Hbasic. rewrite !andb_true_iff in Hbasic.
-    destruct Hbasic as [[[B1 B2] B3] B4].
+    destruct Hbasic as [[B1 B2] B3].
     rewrite authorization_roundtrip_id.
     + unfold Auth.verify_parsed, Auth.authorization_of, challenge_of.
       cbn [N.eqb a_method z_method z_user z_pass z_alg andb]. rewrite Hin, !list_eqb_refl. reflexivity.
     + unfold Auth.authorization_of, challenge_of, wf_authorization.
       cbn [N.eqb a_method z_method z_user z_pass z_realm z_nonce z_uri z_response z_opaque z_alg is_nil is_none].
       now rewrite B1, B2, B3.
-    + unfold Auth.authorization_of, challenge_of, basic_pass_ok. cbn [N.eqb a_method z_method z_pass]. exact B4.
   - (* Digest MD5 *)
     rewrite authorization_roundtrip_id.
     + unfold Auth.verify_parsed, Auth.authorization_of, challenge_of.
@@ -189,7 +188,6 @@ Proof.
     + unfold Auth.authorization_of, challenge_of, wf_authorization.
       cbn [N.eqb Pos.eqb a_method a_realm a_nonce a_alg z_method z_user z_pass z_realm z_nonce z_uri z_response z_opaque z_alg is_nil opt_all N.ltb N.compare Pos.compare Pos.compare_cont].
       rewrite Hu, Hr, Hn, Hurl. unfold Auth.digest_response, hash_of. cbn [N.eqb]. now rewrite (proj1 (hash_noquote _)).
-    + reflexivity.
   - (* Digest SHA-256 *)
     rewrite authorization_roundtrip_id.
     + unfold Auth.verify_parsed, Auth.authorization_of, challenge_of.
@@ -198,20 +196,15 @@ Proof.
     + unfold Auth.authorization_of, challenge_of, wf_authorization.
       cbn [N.eqb Pos.eqb a_method a_realm a_nonce a_alg z_method z_user z_pass z_realm z_nonce z_uri z_response z_opaque z_alg is_nil opt_all].
       rewrite Hu, Hr, Hn, Hurl. unfold Auth.digest_response, hash_of. cbn [N.eqb Pos.eqb]. now rewrite (proj2 (hash_noquote _)).
-    + reflexivity.
 Qed.
 
-(* F9: with only Basic enabled, the correct credentials user "u", password "a:b" are rejected *)
-Theorem auth_complete_basic_refuted :
-  exists methods realm nonce user pass method u,
-    methods_ok methods = true /\ nosep DQ user = true /\ nosep COLON user = true /\
-    (let ah := challenge_of realm nonce (best_scheme (eff_methods methods)) in
-     sender_init (challenge methods realm nonce) = Some ah /\
-     verify methods user pass realm nonce method u [add_authorization ah user pass method (u_full u)] = false).
-Proof.
-  exists (Some [0]), [105], [], [117], [97; 58; 98], [80], (mkUrl [114] [47]).
-  repeat split; vm_compute; reflexivity.
-Qed.
+(* regression (F9, fixed by /repo ebc43d3): Basic only, user "u", password "a:b" is accepted *)
+Example auth_complete_f9_regression :
+  let methods := Some [0] in let realm := [105] in let nonce := [] in
+  let ah := challenge_of realm nonce (best_scheme (eff_methods methods)) in
+  sender_init (challenge methods realm nonce) = Some ah /\
+  verify methods [117] [97; 58; 98] realm nonce [80] (mkUrl [114] [47]) [add_authorization ah [117] [97; 58; 98] [80] [114]] = true.
+Proof. split; vm_compute; reflexivity. Qed.
 End Hashes.
 
 (* ---------- soundness against honest-but-different client inputs ---------- *)
@@ -250,7 +243,7 @@ Qed.
 (* A header computed by the library's client side (AddAuthorization) for a digest challenge (realm', nonce', alg')
    from user', pass', method', uri', or for a Basic challenge from user', pass' *)
 Definition wf_client (ah : authenticate) (user' pass' uri' : list N) : bool :=
-  if a_method ah =? 0 then nosep COLON user' && bytes_okb user' && bytes_okb pass' && nosep COLON pass'
+  if a_method ah =? 0 then nosep COLON user' && bytes_okb user' && bytes_okb pass'
   else (a_method ah =? 1) && nosep DQ user' && nosep DQ (a_realm ah) && nosep DQ (a_nonce ah) && nosep DQ uri'
        && opt_all (fun x => x <? 2) (a_alg ah).
 
@@ -268,24 +261,22 @@ Proof.
   inversion Ev as [Ev']. clear Ev. unfold add_authorization in Ev'.
   destruct (N.eqb_spec (a_method ah) 0) as [Hm0|Hm0].
   - (* Basic *)
-    rewrite !andb_true_iff in Hwf. destruct Hwf as [[[B1 B2] B3] B4].
+    rewrite !andb_true_iff in Hwf. destruct Hwf as [[B1 B2] B3].
     assert (Hz : z = authorization_of H_md5 H_sha ah user' pass' method' uri').
-    { rewrite <- Ev' in Ez. rewrite authorization_roundtrip_id in Ez; [now inversion Ez| |].
-      - unfold authorization_of, wf_authorization. rewrite Hm0.
-        cbn [N.eqb z_method z_user z_pass z_realm z_nonce z_uri z_response z_opaque z_alg is_nil is_none]. now rewrite B1, B2, B3.
-      - unfold authorization_of, basic_pass_ok. rewrite Hm0. cbn [N.eqb z_method z_pass]. exact B4. }
+    { rewrite <- Ev' in Ez. rewrite authorization_roundtrip_id in Ez; [now inversion Ez|].
+      unfold authorization_of, wf_authorization. rewrite Hm0.
+      cbn [N.eqb z_method z_user z_pass z_realm z_nonce z_uri z_response z_opaque z_alg is_nil is_none]. now rewrite B1, B2, B3. }
     unfold authorization_of in Hz. rewrite Hm0 in Hz. cbn [N.eqb] in Hz. subst z.
     cbn [z_method z_user z_pass] in *.
     destruct Hcases as [(_ & Hc & Hp)|(Hm1 & _)]; [|discriminate].
     split; [exact Hu|]. split; [exact Hp|]. left. auto.
   - rewrite !andb_true_iff in Hwf. destruct Hwf as [[[[[Hm1 D1] D2] D3] D4] D5]. apply N.eqb_eq in Hm1.
     assert (Hz : z = authorization_of H_md5 H_sha ah user' pass' method' uri').
-    { rewrite <- Ev' in Ez. rewrite authorization_roundtrip_id in Ez; [now inversion Ez| |].
-      - unfold authorization_of, wf_authorization. rewrite Hm1.
-        cbn [N.eqb Pos.eqb z_method z_user z_pass z_realm z_nonce z_uri z_response z_opaque z_alg is_nil opt_all].
-        rewrite D1, D2, D3, D4, D5. unfold digest_response, hash_of.
-        destruct (a_alg ah) as [a|]; [destruct (a =? 0)|]; first [now rewrite (proj1 (hash_noquote _)) | now rewrite (proj2 (hash_noquote _))].
-      - unfold authorization_of, basic_pass_ok. rewrite Hm1. reflexivity. }
+    { rewrite <- Ev' in Ez. rewrite authorization_roundtrip_id in Ez; [now inversion Ez|].
+      unfold authorization_of, wf_authorization. rewrite Hm1.
+      cbn [N.eqb Pos.eqb z_method z_user z_pass z_realm z_nonce z_uri z_response z_opaque z_alg is_nil opt_all].
+      rewrite D1, D2, D3, D4, D5. unfold digest_response, hash_of.
+      destruct (a_alg ah) as [a|]; [destruct (a =? 0)|]; first [now rewrite (proj1 (hash_noquote _)) | now rewrite (proj2 (hash_noquote _))]. }
     unfold authorization_of in Hz. rewrite Hm1 in Hz. cbn [N.eqb Pos.eqb] in Hz. subst z.
     cbn [z_method z_user z_pass z_realm z_nonce z_uri z_response z_alg] in *.
     destruct Hcases as [(Hm & _)|(_ & Halg & Hn & Hr & Hurl & Hresp)]; [discriminate|].
@@ -312,19 +303,19 @@ Proof. intros H. unfold handle_auth_error. now rewrite H. Qed.
 
 (* credentials produced by the client side are "provided" ... *)
 Theorem client_credentials_provided z :
-  wf_authorization z = true -> basic_pass_ok z = true -> z_user z <> [] ->
+  wf_authorization z = true -> z_user z <> [] ->
   credentials_provided [authorization_marshal z] = true.
 Proof.
-  intros Hwf Hp Hu. unfold credentials_provided, parse_authorization.
+  intros Hwf Hu. unfold credentials_provided, parse_authorization.
   rewrite authorization_roundtrip_id by assumption. destruct (z_user z); [congruence|reflexivity].
 Qed.
 
-(* ... except (F9) Basic credentials whose password contains ':': they are treated as absent, so wrong
-   credentials of that shape are answered with a challenge and the connection is NOT closed *)
-Theorem fate_wrong_credentials_refuted :
-  exists z methods realm nonce, wf_authorization z = true /\ z_user z <> [] /\
-    handle_auth_error methods realm nonce [authorization_marshal z] = Challenge (challenge methods realm nonce).
-Proof.
-  exists f9_witness, None, [], []. split; [reflexivity|]. split; [discriminate|]. vm_compute. reflexivity.
-Qed.
+(* hence every request carrying client-produced credentials that the handler refuses ends the connection -
+   also (regression, F9 fixed by /repo ebc43d3) Basic credentials whose password contains ':' *)
+Theorem fate_client_credentials_close z methods realm nonce :
+  wf_authorization z = true -> z_user z <> [] ->
+  handle_auth_error methods realm nonce [authorization_marshal z] = CloseConn.
+Proof. intros Hwf Hu. apply fate_with_credentials. now apply client_credentials_provided. Qed.
+Example fate_f9_regression : handle_auth_error None [] [] [authorization_marshal f9_witness] = CloseConn.
+Proof. vm_compute. reflexivity. Qed.
 End Fate.
